@@ -82,7 +82,11 @@ def rule_precedence(ctx, px):
     ok = [w for _, w, _ in info] == ["fs", "pkg"]
     ctx.ob(R, tt.module.rel, f"{tt.short} :: file-system listing searched first", ok, f"order: {[w for _, w, _ in info]}", tt.node.lineno)
     pk_terms = info[1][2] if len(info) > 1 else []
-    ok = ("template_path is None", True) in pk_terms
+    res_names = set()
+    for n in ast.walk(tt.node):
+        if isinstance(n, ast.Assign) and isinstance(n.value, ast.Call) and getattr(n.value.func, "attr", "") == "_type_to_template_internal":
+            res_names |= {t.id for t in n.targets if isinstance(t, ast.Name)}
+    ok = any((f"{r} is None", True) in pk_terms for r in res_names)
     ctx.ob(R, tt.module.rel, f"{tt.short} :: package listing searched only when the file-system search found nothing", ok,
            "" if ok else f"package search guarded by {pk_terms}", tt.node.lineno)
 
@@ -106,7 +110,11 @@ def rule_precedence(ctx, px):
     ok = len(loops) == 1 and ast.unparse(loops[0].iter).endswith(".__bases__")
     ctx.ob(R, it.module.rel, f"{it.short} :: enqueues the direct bases of the class that had no template", ok, "", it.node.lineno)
     # template is looked up by the class's own name
-    ok = "templates[current_search_type.__name__]" in src
+    tparam = it.node.args.args[2].arg if len(it.node.args.args) > 2 else "templates"
+    popped = {t.id for n in ast.walk(it.node) if isinstance(n, ast.Assign) and isinstance(n.value, ast.Call) and getattr(n.value.func, "attr", "") in ("pop", "popleft")
+              for t in n.targets if isinstance(t, ast.Name)}
+    lookups = [n for n in ast.walk(it.node) if isinstance(n, ast.Subscript) and isinstance(n.ctx, ast.Load) and isinstance(n.value, ast.Name) and n.value.id == tparam]
+    ok = bool(lookups) and all(isinstance(n.slice, ast.Attribute) and n.slice.attr == "__name__" and isinstance(n.slice.value, ast.Name) and n.slice.value.id in popped for n in lookups)
     ctx.ob(R, it.module.rel, f"{it.short} :: a class matches the template carrying exactly its name", ok, "", it.node.lineno)
     # the lookup mapping handed in is keyed by file stem
     for c in calls:
@@ -120,11 +128,14 @@ def rule_precedence(ctx, px):
     ctx.ob(R, gt.module.rel, f"{gt.short} :: enumeration is returned sorted", ok, "", gt.node.lineno)
     # DSDLCodeGenerator uses FIND_FIRST so a user template directory masks the built-in set entirely
     init = px.func(GEN, "DSDLCodeGenerator.__init__")
-    ok = "search_policy=ResourceSearchPolicy.FIND_FIRST" in ast.unparse(init.node)
+    ok = any(k.arg == "search_policy" and isinstance(k.value, ast.Attribute) and k.value.attr == "FIND_FIRST"
+             for c in ast.walk(init.node) if isinstance(c, ast.Call) for k in c.keywords)
     ctx.ob(R, init.module.rel, f"{init.short} :: FIND_FIRST search policy", ok, "", init.node.lineno)
     li = px.func(LOADERS, "DSDLTemplateLoader.__init__")
-    pk = [s for s in ast.walk(li.node) if isinstance(s, ast.If) and "package_name_for_templates is not None" in ast.unparse(s.test)]
-    ok = bool(pk) and "FIND_ALL" in ast.unparse(pk[0].test) and "self._fsloader is None" in ast.unparse(pk[0].test)
+    pk = [s for s in ast.walk(li.node) if isinstance(s, ast.If) and any(isinstance(a, ast.Assign) and any(isinstance(t, ast.Attribute) and t.attr == "_package_loader" for t in a.targets)
+                                                                      and not (isinstance(a.value, ast.Constant) and a.value.value is None) for a in ast.walk(s))]
+    pk = [s for s in pk if "FIND_ALL" in ast.unparse(s.test)]
+    ok = bool(pk) and "self._fsloader is None" in ast.unparse(pk[0].test)
     ctx.ob(R, li.module.rel, f"{li.short} :: package loader exists only for FIND_ALL or when there is no user directory", ok, "", li.node.lineno)
 
 
@@ -164,13 +175,17 @@ def rule_guard(ctx, px):
     for st, gd in pyfront.walk_guarded(a.node.body):
         if isinstance(st, ast.Raise):
             raises.append(pyfront.guard_terms(gd))
-    ok = any(("item_name in collection", True) in t and ("self._allow_replacements", False) in t for t in raises)
+    aps = [x.arg for x in a.node.args.args if x.arg != "self"]
+    if len(aps) < 3:
+        raise AnalysisError("anchor changed: _add_to_environment(name, item, collection)")
+    a_name, a_item, a_coll = aps[0], aps[1], aps[2]
+    ok = any((f"{a_name} in {a_coll}", True) in t and ("self._allow_replacements", False) in t for t in raises)
     ctx.ob(R, a.module.rel, f"{a.short} :: raises when the name exists and replacement was not requested", ok,
            "" if ok else f"raise conditions: {raises}", a.node.lineno)
     stores = []
     for st, gd in pyfront.walk_guarded(a.node.body):
-        if (isinstance(st, ast.Assign) and "collection[" in ast.unparse(st.targets[0])) or \
-                (isinstance(st, ast.Expr) and ast.unparse(st.value).startswith("setattr(collection")):
+        if (isinstance(st, ast.Assign) and ast.unparse(st.targets[0]).startswith(f"{a_coll}[")) or \
+                (isinstance(st, ast.Expr) and ast.unparse(st.value).startswith(f"setattr({a_coll}")):
             stores.append(st)
     # the stores come after the raise (statement order) and are not inside the `exists` branch only
     raise_lines = [r.lineno for r in ast.walk(a.node) if isinstance(r, ast.Raise)]
@@ -184,13 +199,18 @@ def rule_guard(ctx, px):
     # _allow_replacements assigned once from the constructor parameter
     init = px.func(ENV, "CodeGenEnvironment.__init__")
     asg = [s for s in ast.walk(px.cls(ENV, "CodeGenEnvironment").node) if isinstance(s, ast.Assign) and ast.unparse(s.targets[0]) == "self._allow_replacements"]
-    ok = len(asg) == 1 and ast.unparse(asg[0].value) == "allow_filter_test_or_use_query_overwrite"
+    iparams = {x.arg for x in init.node.args.args + init.node.args.kwonlyargs}
+    ok = len(asg) == 1 and isinstance(asg[0].value, ast.Name) and asg[0].value.id in iparams
     ctx.ob(R, init.module.rel, "CodeGenEnvironment :: _allow_replacements comes from the constructor argument only", ok, "", init.node.lineno)
 
     # --- globals -----------------------------------------------------------------------------------------------
     user_stores = []
+    uloops = [n for n in ast.walk(init.node) if isinstance(n, ast.For) and "additional_globals" in {x.id for x in ast.walk(n.iter) if isinstance(x, ast.Name)}]
+    if len(uloops) != 1 or not isinstance(uloops[0].target, ast.Tuple) or len(uloops[0].target.elts) != 2:
+        raise AnalysisError("anchor missing: loop over additional_globals.items() in CodeGenEnvironment.__init__")
+    g_name, g_value = (e.id for e in uloops[0].target.elts)
     for st, gd in pyfront.walk_guarded(init.node.body):
-        if isinstance(st, ast.Assign) and ast.unparse(st.targets[0]).startswith("self.globals[") and ast.unparse(st.value) == "global_value":
+        if isinstance(st, ast.Assign) and ast.unparse(st.targets[0]) == f"self.globals[{g_name}]" and ast.unparse(st.value) == g_value:
             user_stores.append((st, gd))
     if len(user_stores) != 1:
         raise AnalysisError(f"anchor missing: insertion of user globals in CodeGenEnvironment.__init__ (found {len(user_stores)})")
@@ -202,7 +222,7 @@ def rule_guard(ctx, px):
     for d in dom:
         if isinstance(d, ast.If) and any(isinstance(r, ast.Raise) for r in d.body):
             t = ast.unparse(d.test)
-            if "global_name in self.globals" in t:
+            if f"{g_name} in self.globals" in t:
                 covers_all = True
     ctx.ob(R, init.module.rel, f"{init.short} :: user global checked against every existing global name", covers_all,
            "" if covers_all else "only the reserved-name sets are tested: a user global named like a Jinja default global "
@@ -213,7 +233,7 @@ def rule_guard(ctx, px):
             t = ast.unparse(d.test)
             if "RESERVED_GLOBAL_NAMESPACES" in t and "RESERVED_GLOBAL_NAMES" in t and "_allow_replacements" not in t:
                 reserved = True
-            if t == "global_name in self.globals":
+            if t == f"{g_name} in self.globals":
                 # unconditional refusal of every existing name covers the reserved ones provided they are installed
                 # before: a dominating loop assigns self.globals[<ns>] over RESERVED_GLOBAL_NAMESPACES and now_utc
                 inst_ns = any(isinstance(x, ast.For) and "RESERVED_GLOBAL_NAMESPACES" in ast.unparse(x.iter)
@@ -268,7 +288,8 @@ def rule_tests(ctx, px):
     ok = want_attr in rets and want_val in rets and len(rets) == 2
     ctx.ob(R, f.module.rel, f"{f.short} :: predicate = isinstance(value or attribute.data_type, class)", ok,
            "" if ok else f"predicate returns {rets}", pred.lineno)
-    stores = [s for s in ast.walk(f.node) if isinstance(s, ast.Assign) and ast.unparse(s.targets[0]).startswith("tests[")]
+    tdict = f.node.args.args[2].arg if len(f.node.args.args) > 2 else "tests"
+    stores = [s for s in ast.walk(f.node) if isinstance(s, ast.Assign) and ast.unparse(s.targets[0]).startswith(f"{tdict}[")]
     ok = bool(stores) and all(ast.unparse(s.value) == pred.name for s in stores)
     ctx.ob(R, f.module.rel, f"{f.short} :: name and alias are bound to the same predicate", ok, "", f.node.lineno)
     keys = [ast.unparse(s.targets[0].slice) for s in stores]
@@ -279,12 +300,12 @@ def rule_tests(ctx, px):
     ok = len(alias_ifs) == 1 and bool(alias_ifs[0].orelse)
 
     def all_assign(node_if):
-        b = any(isinstance(s, ast.Assign) and ast.unparse(s.targets[0]).startswith("tests[") for s in node_if.body)
+        b = any(isinstance(s, ast.Assign) and ast.unparse(s.targets[0]).startswith(f"{tdict}[") for s in node_if.body)
         if not node_if.orelse:
             return False
         if len(node_if.orelse) == 1 and isinstance(node_if.orelse[0], ast.If):
             return b and all_assign(node_if.orelse[0])
-        return b and any(isinstance(s, ast.Assign) and ast.unparse(s.targets[0]).startswith("tests[") for s in node_if.orelse)
+        return b and any(isinstance(s, ast.Assign) and ast.unparse(s.targets[0]).startswith(f"{tdict}[") for s in node_if.orelse)
 
     ok = ok and all_assign(alias_ifs[0])
     ctx.ob(R, f.module.rel, f"{f.short} :: an alias is defined on every path", ok, "", f.node.lineno)
@@ -296,7 +317,11 @@ def rule_tests(ctx, px):
     ok = set(roots) >= {"pydsdl.SerializableType", "pydsdl.Attribute"}
     ctx.ob(R, allf.module.rel, f"{allf.short} :: roots SerializableType and Attribute", ok, f"roots: {roots}", allf.node.lineno)
     init = px.func(GEN, "DSDLCodeGenerator.__init__")
-    ok = "self._env.add_test(test_name, test)" in ast.unparse(init.node)
+    ok = False
+    for lp in ast.walk(init.node):
+        if isinstance(lp, ast.For) and "_create_all_dsdl_tests" in ast.unparse(lp.iter) and isinstance(lp.target, ast.Tuple) and len(lp.target.elts) == 2:
+            k, v = (ast.unparse(e) for e in lp.target.elts)
+            ok = any(isinstance(c, ast.Call) and getattr(c.func, "attr", "") == "add_test" and [ast.unparse(x) for x in c.args] == [k, v] for c in ast.walk(lp))
     ctx.ob(R, init.module.rel, f"{init.short} :: tests installed through env.add_test (collision raises)", ok, "", init.node.lineno)
     # alias table from the installed pydsdl hierarchy
     import pydsdl  # the dependency's class hierarchy is data for this rule
